@@ -168,3 +168,28 @@ class SysSpec:
     def resid(self, nets, z, eq):
         us = np.array([nets[k].val(z, eq)[0] for k in self.names])
         return self.A @ us + self.Bz @ np.asarray(z, float) + self.C * float(np.sum(eq["theta"]))
+
+
+# ----------------------------------------------------------------------------- fault-injecting equations (C18)
+def _tick_fault(self, params):
+    return jnp.where(jnp.sum(params.eq_params["tick"]) == self.kfault, jnp.nan, 0.0)
+
+
+class TickODE(RandODE):
+    kfault: jax.Array
+
+    def equation(self, t, u, params):
+        return RandODE.equation(self, t, u, params) + _tick_fault(self, params)
+
+
+class TickStatio(RandStatio):
+    kfault: jax.Array
+
+    def equation(self, x, u, params):
+        return RandStatio.equation(self, x, u, params) + _tick_fault(self, params)
+
+
+def tick_module(spec, kind, kfault):
+    cls = {"ode": TickODE, "statio": TickStatio}[kind]
+    return cls(A=jnp.asarray(spec.A), Bz=jnp.asarray(spec.Bz), C=jnp.asarray(spec.C), E=jnp.asarray(spec.E),
+               G=jnp.asarray(spec.G), K=jnp.asarray(spec.K), kfault=jnp.asarray(float(kfault)))
